@@ -221,6 +221,10 @@ def fanout(kind: int, n: int, ip: int, rp: int, op: int, sel: bool, fail_at: int
     return agree(got, want)
 
 
+from vf.api import variants
+variants(globals(), fanout, [("_parallel", "kind == 0"), ("_map_n0", "kind == 1 and n == 0"), ("_map_n1", "kind == 1 and n == 1"), ("_map_n2_sel", "kind == 1 and n == 2 and sel"), ("_map_n2", "kind == 1 and n == 2 and not sel")])
+
+
 @condition(timeout={"quick": 120, "thorough": 300}, functions=["whole notify pipeline over a 4-state chain"])
 def chain(x: int, fail: bool, has_a: bool) -> bool:
     """
